@@ -186,6 +186,8 @@ pub struct Rig {
 
 #[derive(Clone, Debug)]
 pub struct InSpec {
+    /// packet lengths (packet inputs only): `Feed(j, k)` pushes the next `k` packets
+    pub pkts: Vec<usize>,
     pub len: usize,
     pub seed: u64,
     pub m: u64,
@@ -242,18 +244,132 @@ pub fn request(name: &str, params: &[u64], rig: &Rig, ins: &[InSpec], acts: &[Ac
     s
 }
 
+#[derive(Clone, Debug)]
+pub struct CallRec {
+    pub verdict: String,
+    pub consumed: Vec<usize>,
+    pub produced: Vec<usize>,
+    /// readable per input / free per output, after the call
+    pub avail_after: Vec<usize>,
+    pub free_after: Vec<usize>,
+    pub closed: Vec<bool>,
+}
+
+pub struct RunOut {
+    pub trace: String,
+    pub calls: Vec<CallRec>,
+    pub collected: Vec<Vec<u64>>,
+    pub ctags: Vec<Vec<(usize, u64, u64)>>,
+    pub eof_flag: bool,
+    pub panicked: bool,
+}
+
 /// Run the schedule on the real block; returns the observed trace (same format as the model's).
-pub fn run_case(mut rig: Rig, ins: &[InSpec], acts: &[Act]) -> String {
+pub fn run_case(rig: Rig, ins: &[InSpec], acts: &[Act]) -> String {
+    run_case_full(rig, ins, acts, false).trace
+}
+
+/// Per-stream movement (consumed, produced) seen by the hook since the last reset.
+static MOVES: std::sync::Mutex<Vec<(usize, usize, usize)>> = std::sync::Mutex::new(Vec::new());
+
+fn install_move_counter() {
+    verif::set_callback(Some(std::sync::Arc::new(|id, a, b| {
+        let (c, p) = match id {
+            verif::pt::CONSUME_RETURN | verif::pt::NC_POP => (a, 0),
+            verif::pt::PRODUCE_RETURN | verif::pt::NC_PUSH => (0, a),
+            _ => return,
+        };
+        let mut m = MOVES.lock().unwrap();
+        if let Some(e) = m.iter_mut().find(|e| e.0 == b) {
+            e.1 += c;
+            e.2 += p;
+        } else {
+            m.push((b, c, p));
+        }
+    })));
+}
+
+fn moves_of(id: usize) -> (usize, usize) {
+    MOVES.lock().unwrap().iter().find(|e| e.0 == id).map(|e| (e.1, e.2)).unwrap_or((0, 0))
+}
+
+pub fn run_case_full(mut rig: Rig, ins: &[InSpec], acts: &[Act], adaptive_flush: bool) -> RunOut {
+    install_move_counter();
+    // what the harness itself believes is queued on each input / output
+    let mut in_used: Vec<usize> = vec![0; rig.ins.len()];
+    let mut out_used: Vec<usize> = vec![0; rig.outs.len()];
+    let mut calls: Vec<CallRec> = Vec::new();
+    let mut closed = vec![false; rig.ins.len()];
     let data: Vec<Vec<u64>> = ins.iter().map(|i| gen_data(i.len, i.seed, i.m, &i.tbl)).collect();
     let mut fed = vec![0usize; ins.len()];
+    let mut pkt_next = vec![0usize; ins.len()];
     let mut collected: Vec<Vec<u64>> = vec![vec![]; rig.outs.len()];
     let mut ctags: Vec<Vec<(usize, u64, u64)>> = vec![vec![]; rig.outs.len()];
     let mut trace: Vec<String> = Vec::new();
     let mut dead = false;
-    for a in acts {
+    let mut panicked = false;
+    let mut errored = false;
+    let mut acts: Vec<Act> = acts.to_vec();
+    let mut pc = 0usize;
+    let mut flush_left = if adaptive_flush { 20_000usize } else { 0 };
+    let mut flush_prev: Option<(Vec<usize>, Vec<usize>, usize)> = None;
+    while pc < acts.len() || flush_left > 0 {
+        if pc >= acts.len() {
+            // adaptive flush: keep the block running until it has nothing left to do
+            flush_left -= 1;
+            let last = calls.last().map(|c| c.verdict.clone()).unwrap_or_default();
+            let all_closed = closed.iter().all(|c| *c);
+            let data_left = (0..ins.len()).any(|j| fed[j] < data[j].len());
+            if dead || errored || last == "E" {
+                break;
+            }
+            let last_moved = calls
+                .last()
+                .map(|c| c.consumed.iter().chain(c.produced.iter()).any(|x| *x > 0))
+                .unwrap_or(true);
+            // quiescent: the previous round (feed, work, drain) changed nothing at all
+            let snapshot = (fed.clone(), collected.iter().map(|c| c.len()).collect::<Vec<_>>(), calls.len());
+            let quiet_round = flush_prev.as_ref().map(|p| p.0 == snapshot.0 && p.1 == snapshot.1).unwrap_or(false);
+            flush_prev = Some(snapshot);
+            if all_closed && !last.starts_with('A') && !last.is_empty() && !last_moved && quiet_round {
+                break;
+            }
+            for j in 0..rig.ins.len() {
+                if !closed[j] {
+                    acts.push(Act::Feed(j, 1_000_000));
+                }
+            }
+            if !data_left && in_used.iter().all(|u| *u == 0) || (!data_left && !last.starts_with('A') && !last.is_empty()) {
+                for j in 0..rig.ins.len() {
+                    if !closed[j] {
+                        acts.push(Act::Close(j));
+                    }
+                }
+            }
+            acts.push(Act::Work);
+            for j in 0..rig.outs.len() {
+                acts.push(Act::Drain(j, 1_000_000));
+            }
+            continue;
+        }
+        let a = &acts[pc].clone();
+        pc += 1;
         match *a {
             Act::Feed(j, k) => {
                 if j >= rig.ins.len() {
+                    continue;
+                }
+                if rig.ins[j].cap() == PKT_CAP {
+                    for _ in 0..k {
+                        if pkt_next[j] >= ins[j].pkts.len() {
+                            break;
+                        }
+                        let n = ins[j].pkts[pkt_next[j]].min(data[j].len() - fed[j]);
+                        rig.ins[j].push(&data[j][fed[j]..fed[j] + n], &[]);
+                        fed[j] += n;
+                        pkt_next[j] += 1;
+                        in_used[j] += 1;
+                    }
                     continue;
                 }
                 let n = k.min(rig.ins[j].free()).min(data[j].len() - fed[j]);
@@ -266,19 +382,23 @@ pub fn run_case(mut rig: Rig, ins: &[InSpec], acts: &[Act]) -> String {
                     .collect();
                 rig.ins[j].push(vals, &tags);
                 fed[j] += n;
+                in_used[j] += n;
             }
             Act::Drain(j, k) => {
                 if j >= rig.outs.len() {
                     continue;
                 }
                 let base = collected[j].len();
+                let before = rig.outs[j].len();
                 let (vals, ts) = rig.outs[j].drain(k);
+                out_used[j] -= (before - rig.outs[j].len()).min(out_used[j]);
                 collected[j].extend(vals);
                 ctags[j].extend(ts.into_iter().map(|(p, k, v)| (base + p, k, v)));
             }
             Act::Close(j) => {
                 if j < rig.ins.len() {
                     rig.ins[j].close();
+                    closed[j] = true;
                 }
             }
             Act::DropOut(j) => {
@@ -287,12 +407,11 @@ pub fn run_case(mut rig: Rig, ins: &[InSpec], acts: &[Act]) -> String {
                 }
             }
             Act::Work => {
-                if dead {
+                if dead || errored {
                     trace.push("W:dead".into());
                     continue;
                 }
-                let in_free: Vec<usize> = rig.ins.iter().map(|i| i.free()).collect();
-                let out_len: Vec<usize> = rig.outs.iter().map(|o| o.len()).collect();
+                MOVES.lock().unwrap().clear();
                 let in_ids: Vec<usize> = rig.ins.iter().map(|i| i.id()).collect();
                 let out_ids: Vec<usize> = rig.outs.iter().map(|o| o.id()).collect();
                 let block = &mut rig.block;
@@ -320,9 +439,14 @@ pub fn run_case(mut rig: Rig, ins: &[InSpec], acts: &[Act]) -> String {
                     Ok(v) => v,
                     Err(_) => {
                         dead = true;
+                        panicked = true;
                         "PANIC".to_string()
                     }
                 };
+                if v == "ERR" {
+                    // a runner stops the graph on an error: nothing is called after it
+                    errored = true;
+                }
                 if dead {
                     // streams may be poisoned; report no movement, like the model
                     let z: Vec<String> = rig.ins.iter().map(|_| "0".to_string()).collect();
@@ -330,22 +454,31 @@ pub fn run_case(mut rig: Rig, ins: &[InSpec], acts: &[Act]) -> String {
                     trace.push(format!("W:{v}:{}:{}", z.join(","), zo.join(",")));
                     continue;
                 }
-                let consumed: Vec<String> = rig
-                    .ins
-                    .iter()
-                    .zip(&in_free)
-                    .map(|(i, f0)| (i.free().wrapping_sub(*f0)).to_string())
-                    .collect();
-                let produced: Vec<String> = rig
-                    .outs
-                    .iter()
-                    .zip(&out_len)
-                    .map(|(o, l0)| (o.len().wrapping_sub(*l0)).to_string())
-                    .collect();
+                let consumed_n: Vec<usize> = rig.ins.iter().map(|i| moves_of(i.id()).0).collect();
+                let produced_n: Vec<usize> = rig.outs.iter().map(|o| moves_of(o.id()).1).collect();
+                for (j, c) in consumed_n.iter().enumerate() {
+                    in_used[j] -= (*c).min(in_used[j]);
+                }
+                for (j, p) in produced_n.iter().enumerate() {
+                    out_used[j] += *p;
+                }
+                let consumed: Vec<String> = consumed_n.iter().map(|c| c.to_string()).collect();
+                let produced: Vec<String> = produced_n.iter().map(|c| c.to_string()).collect();
                 trace.push(format!("W:{v}:{}:{}", consumed.join(","), produced.join(",")));
+                calls.push(CallRec {
+                    verdict: v,
+                    consumed: consumed.iter().map(|c| c.parse().unwrap_or(usize::MAX)).collect(),
+                    produced: produced.iter().map(|c| c.parse().unwrap_or(usize::MAX)).collect(),
+                    avail_after: in_used.clone(),
+                    free_after: rig.outs.iter().zip(&out_used).map(|(o, u)| o.cap() - (*u).min(o.cap())).collect(),
+                    closed: closed.clone(),
+                });
             }
         }
     }
+    let eof_flag = if dead { false } else { quiet(|| rig.block.eof()).unwrap_or(false) };
+    let _ = errored;
+    verif::set_callback(None);
     let outs: Vec<String> = (0..rig.outs.len())
         .map(|j| {
             let ts: Vec<String> = ctags[j].iter().map(|(p, k, v)| format!("{p},{k},{v}")).collect();
@@ -357,11 +490,96 @@ pub fn run_case(mut rig: Rig, ins: &[InSpec], acts: &[Act]) -> String {
             )
         })
         .collect();
-    format!("{} ; {}", trace.join(" "), outs.join(" "))
+    RunOut {
+        trace: format!("{} ; {}", trace.join(" "), outs.join(" ")),
+        calls,
+        collected,
+        ctags,
+        eof_flag,
+        panicked,
+    }
+}
+
+/// The greedy (near one-shot) schedule: feed all that fits, work until it stops moving, drain all.
+pub fn greedy_schedule(nin: usize, nout: usize, _in_lens: &[usize]) -> Vec<Act> {
+    // the adaptive flush of `run_case_full` does the rest: feed all, work, drain all, until done
+    let mut acts = Vec::new();
+    for j in 0..nin {
+        acts.push(Act::Feed(j, 1_000_000));
+    }
+    acts.push(Act::Work);
+    for j in 0..nout {
+        acts.push(Act::Drain(j, 1_000_000));
+    }
+    acts
+}
+
+/// C09 on a real trace, no model involved. Returns the first broken rule.
+pub fn c09_accept(run: &RunOut, final_calls: usize) -> Result<(), String> {
+    if run.panicked {
+        return Err("panic".into());
+    }
+    let mut idle_again = 0;
+    for (i, c) in run.calls.iter().enumerate() {
+        let moved = c.consumed.iter().any(|x| *x > 0) || c.produced.iter().any(|x| *x > 0);
+        if c.consumed.iter().chain(c.produced.iter()).any(|x| *x == usize::MAX) {
+            return Err(format!("call {i}: stream went backwards"));
+        }
+        if c.verdict == "A" && !moved {
+            idle_again += 1;
+            if idle_again > 3 {
+                return Err(format!("call {i}: {idle_again} consecutive 'Again' without consuming or producing"));
+            }
+        } else {
+            idle_again = 0;
+        }
+        if let Some(rest) = c.verdict.strip_prefix('I') {
+            let mut it = rest.split(',');
+            let k: usize = it.next().unwrap().parse().unwrap();
+            let need: usize = it.next().unwrap().parse().unwrap();
+            if c.avail_after[k] >= need {
+                return Err(format!("call {i}: waits for {need} on input {k} which has {}", c.avail_after[k]));
+            }
+        } else if let Some(rest) = c.verdict.strip_prefix('O') {
+            let mut it = rest.split(',');
+            let k: usize = it.next().unwrap().parse().unwrap();
+            let need: usize = it.next().unwrap().parse().unwrap();
+            if c.free_after[k] >= need {
+                return Err(format!("call {i}: waits for {need} free on output {k} which has {}", c.free_after[k]));
+            }
+        } else if c.verdict.starts_with('?') {
+            return Err(format!("call {i}: waits on a stream that is not one of the block's"));
+        }
+    }
+    // retirement: once the inputs have ended and are drained the block must let the runner retire it
+    if final_calls > 0 && !run.calls.is_empty() {
+        let last = run.calls.last().unwrap();
+        let all_closed = !last.closed.is_empty() && last.closed.iter().all(|c| *c);
+        if all_closed {
+            let ok = last.verdict == "E"
+                || run.eof_flag
+                || last
+                    .verdict
+                    .strip_prefix('I')
+                    .map(|r| {
+                        let k: usize = r.split(',').next().unwrap().parse().unwrap();
+                        last.closed[k]
+                    })
+                    .unwrap_or(false);
+            if !ok {
+                return Err(format!("inputs ended but the last verdict is {} and eof() is false", last.verdict));
+            }
+        }
+    }
+    Ok(())
 }
 
 /// An adversarial schedule: small feeds, small drains, output left full, big bursts, then a flush.
 pub fn gen_schedule(rng: &mut Rng, nin: usize, nout: usize, in_lens: &[usize], out_cap: usize, steps: usize) -> Vec<Act> {
+    gen_schedule_opt(rng, nin, nout, in_lens, out_cap, steps, true)
+}
+
+pub fn gen_schedule_opt(rng: &mut Rng, nin: usize, nout: usize, in_lens: &[usize], out_cap: usize, steps: usize, with_flush: bool) -> Vec<Act> {
     let mut acts = Vec::new();
     let style = rng.below(5);
     for _ in 0..steps {
@@ -392,6 +610,9 @@ pub fn gen_schedule(rng: &mut Rng, nin: usize, nout: usize, in_lens: &[usize], o
             }
             _ => acts.push(Act::Work),
         }
+    }
+    if !with_flush {
+        return acts;
     }
     // flush: feed everything, drain everything, repeatedly; then close inputs and finish.
     let total: usize = in_lens.iter().copied().max().unwrap_or(0);
@@ -437,4 +658,84 @@ pub fn gen_tags(rng: &mut Rng, len: usize, heavy: bool) -> Vec<(usize, u64, u64)
     // the stream keeps tags of one sample in commit order; feed order = this order
     v.sort_by_key(|t| t.0);
     v
+}
+
+// ---------------------------------------------------------------- packet ports
+
+use rustradio::stream::{NCReadStream, NCWriteStream, new_nocopy_stream};
+
+pub const PKT_CAP: usize = 1 << 40;
+
+/// Packet input: `Feed(j, k)` pushes ONE packet with the next `k` samples.
+pub struct PktFeeder<T: Elem> {
+    w: Option<NCWriteStream<Vec<T>>>,
+    id: usize,
+}
+impl<T: Elem> InPort for PktFeeder<T> {
+    fn id(&self) -> usize {
+        self.id
+    }
+    fn free(&self) -> usize {
+        // reported as cap - queued packets, so that `consumed` = packets popped
+        PKT_CAP - self.w.as_ref().map(|w| w.verif_len()).unwrap_or(0)
+    }
+    fn cap(&self) -> usize {
+        PKT_CAP
+    }
+    fn push(&mut self, vals: &[u64], _tags: &[(usize, u64, u64)]) {
+        if let Some(w) = &self.w {
+            w.push(vals.iter().map(|v| T::from_nat(*v as u128)).collect(), &[]);
+        }
+    }
+    fn close(&mut self) {
+        self.w = None;
+    }
+    fn advance(&mut self, _k: usize) {}
+}
+
+/// Packet output: `Drain(j, k)` pops up to `k` packets; a packet is collected as `len, items…`.
+pub struct PktDrainer<T: Elem> {
+    r: Option<NCReadStream<Vec<T>>>,
+    id: usize,
+}
+impl<T: Elem> OutPort for PktDrainer<T> {
+    fn id(&self) -> usize {
+        self.id
+    }
+    fn len(&self) -> usize {
+        self.r.as_ref().map(|r| r.verif_len()).unwrap_or(0)
+    }
+    fn cap(&self) -> usize {
+        PKT_CAP
+    }
+    fn drain(&mut self, k: usize) -> (Vec<u64>, Vec<(usize, u64, u64)>) {
+        let mut out = vec![];
+        if let Some(r) = &self.r {
+            for _ in 0..k {
+                match r.pop() {
+                    Some((p, _)) => {
+                        out.push(p.len() as u64);
+                        out.extend(p.iter().map(|v| v.to_obs() as u64));
+                    }
+                    None => break,
+                }
+            }
+        }
+        (out, vec![])
+    }
+    fn drop_reader(&mut self) {
+        self.r = None;
+    }
+    fn advance(&mut self, _k: usize) {}
+}
+
+pub fn pkt_feeder<T: Elem>() -> (Box<PktFeeder<T>>, NCReadStream<Vec<T>>) {
+    let (w, r) = new_nocopy_stream::<Vec<T>>();
+    let id = StreamWait::verif_id(&w);
+    (Box::new(PktFeeder { w: Some(w), id }), r)
+}
+
+pub fn pkt_drainer<T: Elem>(r: NCReadStream<Vec<T>>) -> Box<PktDrainer<T>> {
+    let id = StreamWait::verif_id(&r);
+    Box::new(PktDrainer { r: Some(r), id })
 }
